@@ -6,6 +6,7 @@ import Blackbird.Decode
 import Blackbird.Load
 import Blackbird.ErrorListener
 import Blackbird.Unparse
+import Blackbird.UnparseTdm
 
 open Blackbird
 
@@ -47,8 +48,7 @@ def isNameText (s : String) : Bool :=
 
 /-- tokens of the script the serialiser model writes, one line end before every item -/
 def encUnparse (p : Program Float) : String :=
-  if p.ptype.1 = some "tdm" then "(ood tdm)" else
-  match scriptOf p with
+  match (if p.ptype.1 = some "tdm" then scriptOfTdm p else scriptOf p) with
   | .ok sc =>
     let dev := match sc.header.target with
       | some (n, _) => !isNameText n
